@@ -2,7 +2,7 @@
    R2 nae {tid b}.. flag fuel ndl {name n str..}.. nd {name str}.. ntt {tid n stmt..}.. nchain {tid n stmt..}.. nnames name..
       chain = most derived first, last = base; prints O str or N
    P2 nae {tid b}.. b0 n stmt.. : c16_ok c15_ok top_ok
-   expr adds U (super());  stmt adds G x fid n e.. n s.. (set block with filter), J tid (include), Y tid (import), K name n s.. *)
+   expr adds U (super()), JN sep n e.. (([e..])|join(sep));  stmt adds G x fid n e.. n s.. (set block with filter), J tid (include), Y tid (import), K name n s.. *)
 open Esc2_x
 let rec pos_of_int n = if n = 1 then XH else if n land 1 = 0 then XO (pos_of_int (n lsr 1)) else XI (pos_of_int (n lsr 1))
 let n_of_int n = if n = 0 then N0 else Npos (pos_of_int n)
@@ -29,6 +29,7 @@ let rec pexpr () = match next () with
   | "M" -> let m = nn () in let n = nint () in ECall (m, many n pexpr)
   | "K" -> ECaller
   | "U" -> ESuper
+  | "JN" -> let sep = pexpr () in let n = nint () in EJoin (sep, many n pexpr)
   | t -> failwith ("expr " ^ t)
 let rec pstmt () = match next () with
   | "T" -> SText (nstr ())
